@@ -23,7 +23,10 @@ pub trait BuildSchema {
 	/// Build a [`SchemaMut`] for this type
 	fn schema_mut() -> SchemaMut {
 		let mut builder = SchemaBuilder::default();
-		Self::append_schema(&mut builder);
+		// Register the root like any other type, so that a type that (indirectly) contains
+		// itself refers to the root node instead of defining the same type a second time
+		let root_key = builder.find_or_build::<Self>();
+		assert_eq!(root_key.idx(), 0);
 		SchemaMut::from_nodes(builder.nodes)
 	}
 
